@@ -108,6 +108,9 @@ class Incumbent:
 
 def rules(ctx):
     P, R = ctx.prog, ctx.res
+    from .C14 import no_module_state
+    ctx.rule('R09.8', "no function writes module-level state (memo / registry): results independent of earlier calls", floor=1)
+    no_module_state(ctx, 'R09.8')
     ctx.rule('R09.1', "wrappers pass (spin flag, value function) of their own kind and forward all_solutions/valid", floor=8)
     ctx.rule('R09.2', "candidates are product(DOM(flag), repeat=N); N and label map from one source per branch", floor=5)
     ctx.rule('R09.3', "the validity filter dominates the value computation and the best-updates", floor=2)
